@@ -27,7 +27,8 @@ ASSUMPTIONS = [
 
 def bounds(tier):
     return {"cells_per_axis": "1..3" if tier == "quick" else "1..4 (3-D: 1..3 + selected 4)",
-            "spacing_templates": ["U", "G", "I"], "radial_origin": [0, 0.5]}
+            "spacing_templates": ["U", "G", "I", "E (nearly equispaced, 1e-6 relative)"], "radial_origin": [0, 0.5],
+            "length_units": ["1", "2^-30", "2^-60", "2^40"], "face_array_dtypes": ["float64", "int64"]}
 
 
 def cases(tier):
@@ -39,11 +40,20 @@ def cases(tier):
         if tier == "thorough" and d == 3:
             shp += [(4, 1, 2), (1, 4, 2), (2, 1, 4), (4, 4, 4), (4, 2, 3), (3, 4, 1)]
         for shape in shp:
-            for sp in itertools.product(["U", "G", "I"], repeat=d):
+            for sp in itertools.product(["U", "G", "I", "E"], repeat=d):
+                if "E" in sp and len(set(sp)) > 1 and d == 3:
+                    continue        # 3-D: template E only on all axes at once
                 for org in (0, 1):
                     out.append({"kind": "faces", "grid": U.spec(cls, shape, sp, org)})
-            for li in range(3):
+            # the same grids in very small / very large length units (exact 2^k rescaling)
+            for sp in (["I"] * d, ["G"] * d, ["U"] * d):
+                for org in (0, 1):
+                    for k in (-30, -60, 40):
+                        out.append({"kind": "faces", "grid": U.spec(cls, shape, sp, org, k)})
+            for li in range(5):
                 out.append({"kind": "NL", "cls": cls, "shape": list(shape), "lset": li})
+            for org in (0, 1):
+                out.append({"kind": "intfaces", "cls": cls, "shape": list(shape), "org": org})
         out.append({"kind": "labels", "cls": cls})
     return out
 
@@ -175,8 +185,9 @@ def run_case(case):
         cls = case["cls"]
         shape = case["shape"]
         kinds = U.AXES[cls]
-        lsets = {"lin": [0.75, 1.0, 10.0], "rad": [0.75, 1.0, 10.0],
-                 "azi": [2 * math.pi, math.pi / 3, 1.0], "pol": [math.pi, math.pi / 2, 1.0]}
+        lsets = {"lin": [0.75, 1.0, 10.0, 2.0 ** -30, 3e9], "rad": [0.75, 1.0, 10.0, 2.0 ** -30, 3e9],
+                 "azi": [2 * math.pi, math.pi / 3, 1.0, 2 * math.pi, 1.0],
+                 "pol": [math.pi, math.pi / 2, 1.0, math.pi, 1.0]}
         Ls = [lsets[kd][case["lset"]] for kd in kinds]
         mesh = getattr(pf, cls)(*[int(n) for n in shape], *Ls)
         fc = [np.arange(n + 1) * (L / n) for n, L in zip(shape, Ls)]
@@ -192,6 +203,30 @@ def run_case(case):
                 res["findings"].append({"key": "C10:NL_vs_faces:%s" % cls, "msg": "(N,L) form and face form give different cell sizes",
                                         "detail": {"shape": shape, "L": Ls}})
         res["sample"] = {"cls": cls, "shape": shape, "L": Ls}
+    elif k == "intfaces":
+        # face positions given as integer-typed arrays (and the cell counts of the (N, L) form as
+        # numpy integers): "any strictly increasing face positions"
+        cls = case["cls"]
+        shape = case["shape"]
+        fci = [case["org"] + np.concatenate([[0], np.cumsum(np.array([1, 3, 2, 5][:n]))]).astype(np.int64)
+               for n in shape]
+        kinds = U.AXES[cls]
+        ok = all((kd not in ("azi",) or f[-1] <= 6) and (kd != "pol" or f[-1] <= 3) for kd, f in zip(kinds, fci))
+        if ok:
+            mesh = getattr(pf, cls)(*fci)
+            _check_mesh(cls, mesh, [f.astype(float) for f in fci], res, "%s(int faces %s)" % (cls, [f.tolist() for f in fci]))
+            m2 = getattr(pf, cls)(*[f.astype(float) for f in fci])
+            for a in ("_x", "_y", "_z")[:len(shape)]:
+                for attr in ("cellsize", "cellcenters", "facecenters"):
+                    if not np.array_equal(np.asarray(getattr(getattr(mesh, attr), a), dtype=float),
+                                          np.asarray(getattr(getattr(m2, attr), a), dtype=float)):
+                        res["findings"].append({"key": "C10:int_vs_float_faces:%s" % cls,
+                                                "msg": "integer-typed and float-typed face arrays give different %s" % attr,
+                                                "detail": {"shape": shape}})
+        mesh = getattr(pf, cls)(*[np.int64(n) for n in shape], *[U.length(kd, n) for kd, n in zip(kinds, shape)])
+        fc = [np.arange(n + 1) * (U.length(kd, n) / n) for kd, n in zip(kinds, shape)]
+        _check_mesh(cls, mesh, fc, res, "%s(np.int64 N=%s)" % (cls, shape), exact_faces=False)
+        res["sample"] = {"cls": cls, "shape": shape}
     elif k == "labels":
         LBL.check_mesh_labels(case["cls"], res, "C10")
         LBL.check_face_labels(case["cls"], res, "C10")      # vector components (FaceVariable) as well
